@@ -383,3 +383,200 @@ Theorem xoracle_step m rv x n o x0 r0 n0 off0 :
 Proof. intros Hall Hok Ha. unfold holds_append.
   rewrite (oracle_flow_exclusive m rv x n o x0 r0 n0 off0 (xa_inv _ _ Hall) (xtail2_ok _ _ (xa_tail _ _ Hall)) Hok Ha).
   rewrite (xoracle_words m rv x n o x0 r0 n0 off0 Hall Hok Ha). reflexivity. Qed.
+
+(* ---- operations that are not offers, whole histories ---- *)
+Definition xoop_of (o : op) : oop := match o with Bulk _ => OCommit | _ => oop_of o end.
+
+Fixpoint xclean_before_reuse (m : mode) (rv : Z -> Z -> list Z -> Z) (x : xpub) (ops : list op) : Prop :=
+  match ops with
+  | [] => True
+  | o :: r => (snd (xpub_step m rv x o) = Err AdminAction -> part (xlog x) (next_index (xlog x)) = []) /\
+              xclean_before_reuse m rv (fst (xpub_step m rv x o)) r
+  end.
+
+Lemma out_eqb_xposition m x n : xpub_inv n x -> out_eqb (xpub_position m x) (xpub_position m x) = true.
+Proof. intros Hinv. destruct (ps_closed (x_pub x)) eqn:Ec.
+  - unfold xpub_position. rewrite Ec. reflexivity.
+  - rewrite (xpub_position_spec m x n Hinv Ec). apply out_eqb_ok. Qed.
+
+Lemma xoracle_other m x n o x0 r0 n0 off0 :
+  xpub_inv n x -> is_append o = false ->
+  holds_other (geom_of (xlog x) n0 off0) (env_of (x_pub x)) (oop_of o)
+              (xpub_obs m x0 x r0)
+              (xpub_obs m x (x_with_pub x (fst (env_step (x_pub x) o))) (snd (env_step (x_pub x) o))) = true.
+Proof. intros Hinv Hna. pose proof (out_eqb_xposition m x n Hinv) as Hpp.
+  pose proof Hinv as [Hleg Hn Hidx Htid Hbeg Hoff Hcnt].
+  pose proof (mod3_range n) as M0. pose proof (mod3_range (n+1)) as M1. pose proof (mod3_range (n+2)) as M2.
+  pose proof (mod3_distinct n) as (D1 & D2 & D3). destruct (mod3_succ n) as [S1 S2].
+  assert (Hpos : forall p, ps_closed p = ps_closed (x_pub x) -> xpub_position m (x_with_pub x p) = xpub_position m x).
+  { intros p Hc. unfold xpub_position, x_with_pub. cbn [x_pub x_begin x_off]. rewrite Hc. reflexivity. }
+  assert (Hmeta : forall l2 c cl, same_meta (xlog x) l2 -> c = ps_closed (x_pub x) -> forall r,
+            (d_count (o_dump (xpub_obs m x (x_with_pub x (mkPub l2 c cl)) r)) =? d_count (o_dump (xpub_obs m x0 x r0))) &&
+            list_eqb Z.eqb (snd (fst (o_dump (xpub_obs m x0 x r0)))) (snd (fst (o_dump (xpub_obs m x (x_with_pub x (mkPub l2 c cl)) r)))) &&
+            out_eqb (o_pos (xpub_obs m x0 x r0)) (o_pos (xpub_obs m x (x_with_pub x (mkPub l2 c cl)) r)) = true).
+  { intros l2 c cl Hm -> r. unfold xpub_obs, o_dump, o_pos. cbn [fst snd]. rewrite !d_count_delta, !tails_delta.
+    rewrite (Hpos (mkPub l2 (ps_closed (x_pub x)) cl) eq_refl). rewrite Hpp.
+    destruct Hm as (T0 & T1 & T2 & Tc & _). unfold x_with_pub, xlog in *. cbn [x_pub ps_log]. rewrite <- T0, <- T1, <- T2, <- Tc.
+    rewrite Z.eqb_refl, list3_eqb_refl. reflexivity. }
+  assert (Hself : forall r, (d_count (o_dump (xpub_obs m x (x_with_pub x (x_pub x)) r)) =? d_count (o_dump (xpub_obs m x0 x r0))) &&
+            list_eqb Z.eqb (snd (fst (o_dump (xpub_obs m x0 x r0)))) (snd (fst (o_dump (xpub_obs m x (x_with_pub x (x_pub x)) r)))) &&
+            out_eqb (o_pos (xpub_obs m x0 x r0)) (o_pos (xpub_obs m x (x_with_pub x (x_pub x)) r)) = true).
+  { intros r. destruct (x_pub x) as [l c cl] eqn:Ep. replace l with (xlog x) by (unfold xlog; rewrite Ep; reflexivity).
+    apply Hmeta; [repeat split|first [reflexivity | rewrite Ep; reflexivity]]. }
+  destruct o; try discriminate; cbn [env_step oop_of holds_other].
+  - (* Commit *) unfold pub_commit, claim_apply. destruct (ps_claim (x_pub x)) as [[[i o0] fl]|] eqn:Ecl; cbn [fst snd].
+    + destruct (fl - HDR <? zlen body); cbn [fst snd]; [apply Hself|]. apply Hmeta; [apply same_meta_set_part|reflexivity].
+    + apply Hself.
+  - (* Abort *) unfold claim_apply. destruct (ps_claim (x_pub x)) as [[[i o0] fl]|] eqn:Ecl; cbn [fst snd].
+    + apply Hmeta; [apply same_meta_set_part|reflexivity].
+    + apply Hself.
+  - (* SetLimit *) cbn [fst snd]. unfold with_log, dump_eqb.
+    assert (Hnw : no_words (o_dump (xpub_obs m x (x_with_pub x (mkPub (set_limit (ps_log (x_pub x)) v) (ps_closed (x_pub x)) (ps_claim (x_pub x)))) (Ok 0))) = true).
+    { unfold xpub_obs, o_dump. cbn [fst snd]. apply no_words_same_parts; reflexivity. }
+    rewrite Hnw. unfold xpub_obs, o_dump, o_pos, o_res. cbn [fst snd]. rewrite !d_count_delta, !tails_delta.
+    rewrite Hpos by reflexivity. rewrite Hpp. unfold x_with_pub, xlog. cbn [x_pub ps_log set_limit l_count l_t0 l_t1 l_t2].
+    rewrite Z.eqb_refl, list3_eqb_refl. reflexivity.
+  - (* SetConnected *) cbn [fst snd]. unfold with_log, dump_eqb.
+    assert (Hnw : no_words (o_dump (xpub_obs m x (x_with_pub x (mkPub (set_connected (ps_log (x_pub x)) b) (ps_closed (x_pub x)) (ps_claim (x_pub x)))) (Ok 0))) = true).
+    { unfold xpub_obs, o_dump. cbn [fst snd]. apply no_words_same_parts; reflexivity. }
+    rewrite Hnw. unfold xpub_obs, o_dump, o_pos, o_res. cbn [fst snd]. rewrite !d_count_delta, !tails_delta.
+    rewrite Hpos by reflexivity. rewrite Hpp. unfold x_with_pub, xlog. cbn [x_pub ps_log set_connected l_count l_t0 l_t1 l_t2].
+    rewrite Z.eqb_refl, list3_eqb_refl. reflexivity.
+  - (* Close *) cbn [fst snd]. unfold dump_eqb.
+    assert (Hnw : no_words (o_dump (xpub_obs m x (x_with_pub x (mkPub (ps_log (x_pub x)) true (ps_claim (x_pub x)))) (Ok 0))) = true).
+    { unfold xpub_obs, o_dump. cbn [fst snd]. apply no_words_same_parts; reflexivity. }
+    rewrite Hnw. unfold xpub_obs, o_dump, o_pos. cbn [fst snd]. rewrite !d_count_delta, !tails_delta.
+    unfold x_with_pub, xlog. cbn [x_pub ps_log]. rewrite Z.eqb_refl, list3_eqb_refl. reflexivity.
+  - (* Clean *) cbn [fst snd]. unfold with_log. rewrite (xp_active m x n x0 r0 Hinv). rewrite S1, S2.
+    assert (Hni : next_index (ps_log (x_pub x)) = (n + 1) mod 3).
+    { unfold next_index. fold (xlog x). rewrite Hcnt. rewrite index_by_term_count_nonneg by assumption. apply Zplus_mod_idemp_l. }
+    rewrite Hni. rewrite !xd_part by assumption.
+    unfold xpub_obs, o_dump, o_pos. cbn [fst snd]. rewrite !d_count_delta, !tails_delta.
+    rewrite Hpos by reflexivity. rewrite Hpp. unfold x_with_pub. rewrite !xlog_mk || idtac.
+    unfold xlog. cbn [x_pub ps_log set_part l_count l_t0 l_t1 l_t2]. rewrite Z.eqb_refl, list3_eqb_refl.
+    fold (xlog x). rewrite part_set_part_same by assumption. rewrite !part_set_part_other by auto. rewrite !words_eqb_nil_same.
+    cbn [andb]. rewrite !Bool.andb_true_r. apply forallb_forall. intros w Hw.
+    pose proof (words_diff_nil_r (render_term (part (xlog x) ((n + 1) mod 3)))) as Hz. rewrite Forall_forall in Hz.
+    change (render_term []) with (@nil (Z * Z)) in Hw. specialize (Hz w Hw). lia.
+Qed.
+
+Lemma xstep_env m rv x o : is_append o = false ->
+  xpub_step m rv x o = (x_with_pub x (fst (env_step (x_pub x) o)), snd (env_step (x_pub x) o)).
+Proof. intros H. destruct o; try discriminate; cbn [xpub_step]; destruct (env_step (x_pub x) _); reflexivity. Qed.
+
+Lemma xenv_after_step m rv x n o : xpub_inv n x -> op_ok (xlog x) o ->
+  env_after (env_of (x_pub x)) (xoop_of o) = env_of (x_pub (fst (xpub_step m rv x o))).
+Proof. intros Hinv Hok. destruct (is_xappend o) eqn:Ea.
+  - assert (E : env_after (env_of (x_pub x)) (xoop_of o) = env_of (x_pub x)) by (destruct o; try discriminate; reflexivity). rewrite E.
+    destruct (xpub_step_cases m rv x n Hinv o Hok Ea) as [(len & _ & _ & E2) | T]; [rewrite E2; reflexivity|].
+    destruct (xpub_step m rv x o) as [x' r] eqn:Es. cbn [fst].
+    destruct (op_too_long (xlog x) o) eqn:Etl.
+    { inversion T; subst; try discriminate; reflexivity. }
+    assert (Hreq := xrequired_ok x n o Hinv Hok Ea Etl).
+    destruct (xtry_result_inv x n _ _ _ x' r Hinv Hreq T) as (_ & Hl & Hcn & _).
+    assert (Hcl : ps_closed (x_pub x') = ps_closed (x_pub x)) by (inversion T; subst; cbn [x_pub ps_closed]; congruence).
+    unfold env_of. unfold xlog in Hl, Hcn. rewrite Hl, Hcn, Hcl. reflexivity.
+  - destruct o; try discriminate; cbn [xpub_step xoop_of oop_of env_after fst]; try reflexivity.
+    + cbn [env_step]. unfold pub_commit, claim_apply. destruct (ps_claim (x_pub x)) as [[[i o0] fl]|]; [|reflexivity]. destruct (fl - HDR <? zlen body); reflexivity.
+    + cbn [env_step]. unfold claim_apply. destruct (ps_claim (x_pub x)) as [[[i o0] fl]|]; reflexivity.
+Qed.
+
+Theorem xoracle_history_from m rv ops : forall x n x0 r0 n0 off0,
+  xall n x -> hist_ok (xlog x) ops -> xclean_before_reuse m rv x ops ->
+  holds_from (geom_of (xlog x) n0 off0) (env_of (x_pub x)) (xpub_obs m x0 x r0) (map xoop_of ops) (xpub_trace m rv x ops) = true.
+Proof. induction ops as [|o r IH]; intros x n x0 r0 n0 off0 Hall Hok Hcl; [reflexivity|].
+  inversion Hok as [|? ? Ho Hr]; subst. destruct Hcl as [Hcl1 Hcl2]. pose proof (xa_inv _ _ Hall) as Hinv.
+  destruct (xall_step m rv x n o Hall Ho Hcl1) as (n' & Hall' & Hg').
+  pose proof (xenv_after_step m rv x n o Hinv Ho) as Henv.
+  assert (Hstep : holds_step (geom_of (xlog x) n0 off0) (env_of (x_pub x)) (xoop_of o) (xpub_obs m x0 x r0)
+                             (xpub_obs m x (fst (xpub_step m rv x o)) (snd (xpub_step m rv x o))) = true).
+  { destruct (is_xappend o) eqn:Ea.
+    - pose proof (xoracle_step m rv x n o x0 r0 n0 off0 Hall Ho Ea) as H. destruct o; try discriminate; exact H.
+    - destruct (is_append o) eqn:Eapp.
+      + (* Bulk: nothing happens *)
+        destruct o; try discriminate. cbn [xoop_of holds_step xpub_step fst snd holds_other].
+        unfold xpub_obs, o_dump, o_pos. cbn [fst snd]. rewrite !d_count_delta, !tails_delta.
+        rewrite Z.eqb_refl, list3_eqb_refl. rewrite (out_eqb_xposition m x n Hinv). reflexivity.
+      + rewrite (xstep_env m rv x o Eapp). cbn [fst snd].
+        pose proof (xoracle_other m x n o x0 r0 n0 off0 Hinv Eapp) as H.
+        destruct o; try discriminate; exact H. }
+  cbn [map xpub_trace]. destruct (xpub_step m rv x o) as [x' res] eqn:Es. cbn [fst snd] in *. cbn [holds_from].
+  rewrite Hstep. cbn [andb]. rewrite Henv. rewrite <- (geom_of_same _ _ n0 off0 Hg').
+  apply (IH x' n'); auto.
+  eapply Forall_impl; [|exact Hr]. intros a. apply op_ok_same. destruct Hg' as (_ & H & _). exact H.
+Qed.
+
+(* ---- from the constructor on a handed-over log ---- *)
+Lemma xhandover_all h x0 : handover_ok h -> handover_aligned h -> xpub_new (handover_log h) = Ok x0 ->
+  xall (h_n0 h) x0 /\ xlog x0 = handover_log h /\ xspec_pos x0 = h_n0 h * h_tlen h + h_off0 h.
+Proof. intros Hh Hal Hnew. pose proof Hh as (Hg & Hn & Ho).
+  destruct (xpub_new_handed_over (h_init h) (h_tlen h) (h_mtu h) (h_session h) (h_stream h) (h_n0 h) (h_off0 h) Hg Hn Ho)
+    as (x1 & Hnew1 & Hinv1 & Hlog1 & Hpos1).
+  unfold handover_log in Hnew. rewrite Hnew1 in Hnew. inversion Hnew; subst x1. fold (handover_log h) in *.
+  split; [|split; assumption].
+  destruct (handover_content h Hh Hal) as [(C1 & C2 & C3) Hma].
+  pose proof (xi_begin _ _ Hinv1) as Hbeg. rewrite Hlog1 in Hbeg. change (l_tlen (handover_log h)) with (h_tlen h) in *.
+  assert (Hxoff : x_off x0 = h_off0 h) by (unfold xspec_pos in Hpos1; lia).
+  constructor.
+  - exact Hinv1.
+  - pose proof (handed_over_inv (h_init h) (h_tlen h) (h_mtu h) (h_session h) (h_stream h) (h_n0 h) (h_off0 h) Hg Hn Ho) as Hp.
+    pose proof (pi_tail _ _ _ Hp) as Htl. cbn [ps_log pub_init] in Htl. fold (handover_log h) in Htl.
+    exists (h_off0 h). rewrite Hlog1, Htl. rewrite (xi_tid _ _ Hinv1). rewrite Hlog1.
+    pose proof (legal_tlen _ (xi_legal _ _ Hinv1)) as [Htlen _]. rewrite Hlog1 in Htlen. change (l_tlen (handover_log h)) with (h_tlen h) in Htlen.
+    split; [reflexivity|]. split; [unfold two32; lia|]. left. symmetry. exact Hxoff.
+  - unfold xcontent_inv. rewrite Hlog1, Hxoff. rewrite (xi_idx _ _ Hinv1). rewrite Z.min_l in C2 by lia. auto.
+  - rewrite Hlog1. exact Hma. Qed.
+
+Lemma xhandover_obs0 m h x0 : handover_ok h -> handover_aligned h -> xpub_new (handover_log h) = Ok x0 ->
+  obs0 (geom_of_handover h) = xpub_obs m x0 x0 (Ok 0).
+Proof. intros Hh Hal Hnew. destruct (xhandover_all h x0 Hh Hal Hnew) as (Hall & Hlog & Hpos).
+  unfold obs0, xpub_obs, geom_of_handover. cbn [g_init g_tlen g_mtu g_session g_stream g_n0 g_off0]. fold (handover_log h).
+  assert (Hc : ps_closed (x_pub x0) = false).
+  { unfold xpub_new in Hnew. destruct (index_by_term_count (l_count (handover_log h)) <? 0); [discriminate|]. inversion Hnew. reflexivity. }
+  rewrite (xpub_position_spec m x0 _ (xa_inv _ _ Hall) Hc). rewrite Hpos, Hlog.
+  unfold log_delta. rewrite !words_diff_same. reflexivity. Qed.
+
+Theorem xoracle_history m rv h ops x0 :
+  handover_ok h -> handover_aligned h -> hist_ok (handover_log h) ops -> xpub_new (handover_log h) = Ok x0 ->
+  xclean_before_reuse m rv x0 ops ->
+  holds_history (geom_of_handover h) (map xoop_of ops) (xpub_trace m rv x0 ops) = true.
+Proof. intros Hh Hal Hok Hnew Hcl. unfold holds_history. rewrite (xhandover_obs0 m h x0 Hh Hal Hnew).
+  destruct (xhandover_all h x0 Hh Hal Hnew) as (Hall & Hlog & _).
+  pose proof (xoracle_history_from m rv ops x0 (h_n0 h) x0 (Ok 0) (h_n0 h) (h_off0 h) Hall) as H.
+  rewrite Hlog in H. unfold geom_of, geom_of_handover in *. cbn [handover_log] in H.
+  assert (Henv : env_of (x_pub x0) = env0).
+  { unfold xpub_new in Hnew. destruct (index_by_term_count (l_count (handover_log h)) <? 0); [discriminate|]. inversion Hnew. reflexivity. }
+  rewrite Henv in H. apply H; assumption. Qed.
+
+(* the syntactic cleaning contract implies the contract on the run *)
+Theorem xcleaned_between_ok m rv ops : forall x n pending,
+  xpub_inv n x -> hist_ok (xlog x) ops ->
+  (pending = false -> part (xlog x) (next_index (xlog x)) = []) ->
+  cleaned_between pending ops -> xclean_before_reuse m rv x ops.
+Proof. induction ops as [|o r IH]; intros x n pending Hinv Hok HJ Hcb; [exact I|].
+  inversion Hok as [|? ? Ho Hr]; subst. cbn [xclean_before_reuse cleaned_between] in *.
+  destruct (xpub_step_inv m rv x n o Hinv Ho) as (n' & Hinv' & Hg').
+  assert (Hok' : hist_ok (xlog (fst (xpub_step m rv x o))) r).
+  { eapply Forall_impl; [|exact Hr]. intros a. apply op_ok_same. destruct Hg' as (_ & H & _). exact H. }
+  destruct (is_append o) eqn:Ea.
+  - destruct Hcb as [Hp Hcb]. split; [intros _; apply HJ; exact Hp|].
+    apply (IH _ n' true Hinv' Hok'); [discriminate|exact Hcb].
+  - assert (E : xpub_step m rv x o = (let '(p, r) := env_step (x_pub x) o in (x_with_pub x p, r))) by (destruct o; try discriminate; reflexivity).
+    assert (Hres : snd (xpub_step m rv x o) = snd (env_step (x_pub x) o) /\ xlog (fst (xpub_step m rv x o)) = ps_log (fst (env_step (x_pub x) o))).
+    { rewrite E. destruct (env_step (x_pub x) o). split; reflexivity. }
+    destruct Hres as [Hr1 Hr2].
+    split; [rewrite Hr1; intros H; exfalso; exact (env_step_not_admin (x_pub x) o Ea H)|].
+    destruct o; try discriminate;
+      try (apply (IH _ n' pending Hinv' Hok'); [|exact Hcb]; intros Hp; rewrite Hr2; apply env_step_next_empty; [reflexivity|apply HJ; exact Hp]).
+    apply (IH _ n' false Hinv' Hok'); [|exact Hcb]. intros _. rewrite Hr2. cbn [env_step fst with_log ps_log]. fold (xlog x).
+    change (next_index (set_part (xlog x) (next_index (xlog x)) [])) with (next_index (xlog x)).
+    apply part_set_part_same. apply next_index_range. Qed.
+
+Theorem xoracle_history_cleaned m rv h ops x0 :
+  handover_ok h -> handover_aligned h -> hist_ok (handover_log h) ops -> xpub_new (handover_log h) = Ok x0 ->
+  cleaned_between false ops ->
+  holds_history (geom_of_handover h) (map xoop_of ops) (xpub_trace m rv x0 ops) = true.
+Proof. intros Hh Hal Hok Hnew Hcb. apply (xoracle_history m rv h ops x0); auto.
+  destruct (xhandover_all h x0 Hh Hal Hnew) as (Hall & Hlog & _).
+  apply (xcleaned_between_ok m rv ops x0 (h_n0 h) false (xa_inv _ _ Hall)); [rewrite Hlog; exact Hok| |exact Hcb].
+  intros _. rewrite Hlog. apply handover_next_empty. exact Hh. Qed.
